@@ -15,6 +15,7 @@ import Fir.Proofs.FixedLemmas
 import Fir.Proofs.ImageLemmas
 import Fir.Proofs.TwoPassLemmas
 import Fir.Proofs.IdealFilterLemmas
+import Fir.Proofs.TwoPass16Lemmas
 
 namespace Fir.C18
 open Fir
@@ -168,6 +169,88 @@ theorem convex_combination_range (ws xs : List ℚ) (lo hi : ℚ) (hlen : xs.len
     (hw : ∀ w ∈ ws, 0 ≤ w) (hsum : ws.sum = 1) (hx : ∀ x ∈ xs, lo ≤ x ∧ x ≤ hi) :
     lo ≤ (List.zipWith (· * ·) ws xs).sum ∧ (List.zipWith (· * ·) ws xs).sum ≤ hi :=
   Fir.Proofs.convex_combination_range ws xs lo hi hlen hw hsum hx
+
+/-! ### no overshoot for whole images, and the 16-bit pass order -/
+
+open Fir.Proofs in
+/-- no overshoot, one 8-bit horizontal pass on a whole image: if every sample read lies in `[lo, hi]`, the
+    coefficients are non-negative and every window reproduces the constants `lo` and `hi` (the `QuantOK`
+    inequalities of C10 at `lo` and at `hi`), every component of the result lies in `[lo, hi]` -/
+theorem horizPass_range_u8 (src : Img) (dstW dstH offset : Nat) (c : Coeffs) (lo hi : Int)
+    (hlo0 : 0 ≤ lo) (hlh : lo ≤ hi) (hhi : hi ≤ 255)
+    (hp1 : 1 ≤ (qOf .u8 c).precision) (hp : (qOf .u8 c).precision ≤ 22)
+    (hk : ∀ x, x < dstW → ∀ k ∈ (chunkAt .u8 c x).2.toList, 0 ≤ k)
+    (hread : ∀ x y ch, x < dstW → y < dstH → ch < src.n → ∀ s ∈ hWindow .u8 src offset c x y ch, lo ≤ s ∧ s ≤ hi)
+    (hqlo : ∀ x, x < dstW →
+      -(2 ^ ((qOf .u8 c).precision - 1) : Int) ≤ lo * ((chunkAt .u8 c x).2.toList.sum - 2 ^ (qOf .u8 c).precision) ∧
+      lo * ((chunkAt .u8 c x).2.toList.sum - 2 ^ (qOf .u8 c).precision) < 2 ^ ((qOf .u8 c).precision - 1))
+    (hqhi : ∀ x, x < dstW →
+      -(2 ^ ((qOf .u8 c).precision - 1) : Int) ≤ hi * ((chunkAt .u8 c x).2.toList.sum - 2 ^ (qOf .u8 c).precision) ∧
+      hi * ((chunkAt .u8 c x).2.toList.sum - 2 ^ (qOf .u8 c).precision) < 2 ^ ((qOf .u8 c).precision - 1))
+    (x y ch : Nat) (hx : x < dstW) (hy : y < dstH) (hc : ch < src.n) :
+    lo ≤ (horizPass .u8 src dstW dstH offset c).get x y ch ∧ (horizPass .u8 src dstW dstH offset c).get x y ch ≤ hi :=
+  Fir.Proofs.horizPass_range_u8 src dstW dstH offset c lo hi hlo0 hlh hhi hp1 hp hk hread hqlo hqhi x y ch hx hy hc
+
+open Fir.Proofs in
+theorem vertPass_range_u8 (src : Img) (dstW dstH offset : Nat) (c : Coeffs) (lo hi : Int)
+    (hlo0 : 0 ≤ lo) (hlh : lo ≤ hi) (hhi : hi ≤ 255)
+    (hp1 : 1 ≤ (qOf .u8 c).precision) (hp : (qOf .u8 c).precision ≤ 22)
+    (hk : ∀ y, y < dstH → ∀ k ∈ (chunkAt .u8 c y).2.toList, 0 ≤ k)
+    (hread : ∀ x y ch, x < dstW → y < dstH → ch < src.n → ∀ s ∈ vWindow .u8 src offset c x y ch, lo ≤ s ∧ s ≤ hi)
+    (hqlo : ∀ y, y < dstH →
+      -(2 ^ ((qOf .u8 c).precision - 1) : Int) ≤ lo * ((chunkAt .u8 c y).2.toList.sum - 2 ^ (qOf .u8 c).precision) ∧
+      lo * ((chunkAt .u8 c y).2.toList.sum - 2 ^ (qOf .u8 c).precision) < 2 ^ ((qOf .u8 c).precision - 1))
+    (hqhi : ∀ y, y < dstH →
+      -(2 ^ ((qOf .u8 c).precision - 1) : Int) ≤ hi * ((chunkAt .u8 c y).2.toList.sum - 2 ^ (qOf .u8 c).precision) ∧
+      hi * ((chunkAt .u8 c y).2.toList.sum - 2 ^ (qOf .u8 c).precision) < 2 ^ ((qOf .u8 c).precision - 1))
+    (x y ch : Nat) (hx : x < dstW) (hy : y < dstH) (hc : ch < src.n) :
+    lo ≤ (vertPass .u8 src dstW dstH offset c).get x y ch ∧ (vertPass .u8 src dstW dstH offset c).get x y ch ≤ hi :=
+  Fir.Proofs.vertPass_range_u8 src dstW dstH offset c lo hi hlo0 hlh hhi hp1 hp hk hread hqlo hqhi x y ch hx hy hc
+
+open Fir.Proofs in
+/-- no overshoot through both passes (8-bit order) -/
+theorem twoPass_range_u8 (src : Img) (dstW dstH tempW xFirst : Nat) (vc hc : Coeffs) (lo hi : Int)
+    (hlo0 : 0 ≤ lo) (hlh : lo ≤ hi) (hhi : hi ≤ 255)
+    (hpV1 : 1 ≤ (qOf .u8 vc).precision) (hpV : (qOf .u8 vc).precision ≤ 22)
+    (hpH1 : 1 ≤ (qOf .u8 hc).precision) (hpH : (qOf .u8 hc).precision ≤ 22)
+    (hkV : ∀ y, y < dstH → ∀ k ∈ (chunkAt .u8 vc y).2.toList, 0 ≤ k)
+    (hkH : ∀ x, x < dstW → ∀ k ∈ (chunkAt .u8 hc x).2.toList, 0 ≤ k)
+    (hread : ∀ x y ch, x < tempW → y < dstH → ch < src.n → ∀ s ∈ vWindow .u8 src xFirst vc x y ch, lo ≤ s ∧ s ≤ hi)
+    (hqVlo : ∀ y, y < dstH →
+      -(2 ^ ((qOf .u8 vc).precision - 1) : Int) ≤ lo * ((chunkAt .u8 vc y).2.toList.sum - 2 ^ (qOf .u8 vc).precision) ∧
+      lo * ((chunkAt .u8 vc y).2.toList.sum - 2 ^ (qOf .u8 vc).precision) < 2 ^ ((qOf .u8 vc).precision - 1))
+    (hqVhi : ∀ y, y < dstH →
+      -(2 ^ ((qOf .u8 vc).precision - 1) : Int) ≤ hi * ((chunkAt .u8 vc y).2.toList.sum - 2 ^ (qOf .u8 vc).precision) ∧
+      hi * ((chunkAt .u8 vc y).2.toList.sum - 2 ^ (qOf .u8 vc).precision) < 2 ^ ((qOf .u8 vc).precision - 1))
+    (hfit : ∀ x, x < dstW → (chunkAt .u8 hc x).1 + (chunkAt .u8 hc x).2.size ≤ tempW)
+    (hqHlo : ∀ x, x < dstW →
+      -(2 ^ ((qOf .u8 hc).precision - 1) : Int) ≤ lo * ((chunkAt .u8 hc x).2.toList.sum - 2 ^ (qOf .u8 hc).precision) ∧
+      lo * ((chunkAt .u8 hc x).2.toList.sum - 2 ^ (qOf .u8 hc).precision) < 2 ^ ((qOf .u8 hc).precision - 1))
+    (hqHhi : ∀ x, x < dstW →
+      -(2 ^ ((qOf .u8 hc).precision - 1) : Int) ≤ hi * ((chunkAt .u8 hc x).2.toList.sum - 2 ^ (qOf .u8 hc).precision) ∧
+      hi * ((chunkAt .u8 hc x).2.toList.sum - 2 ^ (qOf .u8 hc).precision) < 2 ^ ((qOf .u8 hc).precision - 1))
+    (x y ch : Nat) (hx : x < dstW) (hy : y < dstH) (hc' : ch < src.n) :
+    lo ≤ (horizPass .u8 (vertPass .u8 src tempW dstH xFirst vc) dstW dstH 0 hc).get x y ch ∧
+    (horizPass .u8 (vertPass .u8 src tempW dstH xFirst vc) dstW dstH 0 hc).get x y ch ≤ hi :=
+  Fir.Proofs.twoPass_range_u8 src dstW dstH tempW xFirst vc hc lo hi hlo0 hlh hhi hpV1 hpV hpH1 hpH hkV hkH hread hqVlo hqVhi hfit hqHlo hqHhi x y ch hx hy hc'
+
+open Fir.Proofs in
+theorem twoPass_monotone_u16 (src src' : Img) (dstW dstH tempH yFirst : Nat) (hc vc : Coeffs) (hn : src.n = src'.n)
+    (hpH : (qOf .u16 hc).precision < 64) (hpV : (qOf .u16 vc).precision < 64)
+    (hkH : ∀ x, x < dstW → ∀ k ∈ (chunkAt .u16 hc x).2.toList, 0 ≤ k)
+    (hkV : ∀ y, y < dstH → ∀ k ∈ (chunkAt .u16 vc y).2.toList, 0 ≤ k)
+    (hle : ∀ x y ch j, src.get ((chunkAt .u16 hc x).1 + j) (yFirst + y) ch ≤ src'.get ((chunkAt .u16 hc x).1 + j) (yFirst + y) ch)
+    (haccH : ∀ x y ch, x < dstW → y < tempH → ch < src.n →
+      AccOK16 (chunkAt .u16 hc x).2.toList (hWindow .u16 src yFirst hc x y ch) (qOf .u16 hc).precision ∧
+      AccOK16 (chunkAt .u16 hc x).2.toList (hWindow .u16 src' yFirst hc x y ch) (qOf .u16 hc).precision)
+    (hfit : ∀ y, y < dstH → (chunkAt .u16 vc y).1 + (chunkAt .u16 vc y).2.size ≤ tempH)
+    (haccV : ∀ x y ch, x < dstW → y < dstH → ch < src.n →
+      AccOK16 (chunkAt .u16 vc y).2.toList (vWindow .u16 (horizPass .u16 src dstW tempH yFirst hc) 0 vc x y ch) (qOf .u16 vc).precision ∧
+      AccOK16 (chunkAt .u16 vc y).2.toList (vWindow .u16 (horizPass .u16 src' dstW tempH yFirst hc) 0 vc x y ch) (qOf .u16 vc).precision)
+    (x y ch : Nat) (hx : x < dstW) (hy : y < dstH) (hc' : ch < src.n) :
+    (vertPass .u16 (horizPass .u16 src dstW tempH yFirst hc) dstW dstH 0 vc).get x y ch
+      ≤ (vertPass .u16 (horizPass .u16 src' dstW tempH yFirst hc) dstW dstH 0 vc).get x y ch :=
+  Fir.Proofs.twoPass_monotone_u16 src src' dstW dstH tempH yFirst hc vc hn hpH hpV hkH hkV hle haccH hfit haccV x y ch hx hy hc'
 
 /-! ### non-vacuity -/
 example : passInt .u8 [8192, 8192] [10, 20] 14 ≤ passInt .u8 [8192, 8192] [10, 21] 14 := by decide
